@@ -122,6 +122,13 @@ def do_star(pkg):
     res["names"] = sorted(set(names))
     res["modules"] = sorted(n for n in set(names)
                             if isinstance(getattr(mod, n, None), types.ModuleType))
+    # an advertised name that is bound to the package's own SUBMODULE of the same name although
+    # that submodule defines an object of that name: the import of the object was lost and
+    # the import system's implicit binding of the submodule shows through
+    res["shadowed_by_submodule"] = sorted(
+        n for n in res["modules"]
+        if getattr(getattr(mod, n), "__name__", "") == "lena.%s.%s" % (pkg, n)
+        and hasattr(getattr(mod, n), n))
     res["duplicates"] = sorted(set(n for n in names if list(names).count(n) > 1))
     res["missing"] = sorted(set(n for n in names if not hasattr(mod, n)))
     res["not_in_star_namespace"] = sorted(
